@@ -17,7 +17,9 @@ FUNCTIONS = ['tainted_base_impl::copy_and_verify (pointer branch, rlbox.hpp:486-
 
 EXTRA_CPP = '''#include <memory>
 #include <string>
+#include <string_view>
 namespace rlbox { namespace vinst {
+struct VStrV { int operator()(std::string_view) const; };
 struct VPtrI { int operator()(std::unique_ptr<int>) const; };
 struct VPtrL { int operator()(std::unique_ptr<long>) const; };
 struct VArrI { int operator()(std::unique_ptr<int[]>) const; };
@@ -173,7 +175,7 @@ STRLEN = ('unsigned long vstd_strlen(const char *s)\n'
 
 def string_inst(kind, recv, tier):
     """kind: uptr | std ; recv: tainted | tainted_volatile (pointer cell in sandbox memory)"""
-    V = 'VStrU' if kind == 'uptr' else 'VStrS'
+    V = {'uptr': 'VStrU', 'std': 'VStrS', 'view': 'VStrV'}[kind]
     if recv == 'tainted':
         TT = cs('rlbox::tainted<char *, rlbox::vsbx>')
         recv_decl = ('  struct %s p; unsigned long in_off; _Bool in_null; __CPROVER_assume(in_off < in_size);\n'
@@ -203,6 +205,12 @@ def string_inst(kind, recv, tier):
         stub = vstub('char *arg', req)
         extra = ['verifier_stub', 'vstd_strlen']
         post = STRLEN + stub
+    elif kind == 'view':
+        # a verifier-parameter kind outside the closed set of the pinned tree (std::string_view): rejected by the compiler there
+        # (may_not_compile); an arm that accepts it must still hand over an object that lives in application memory
+        stub = vstub('struct M_string arg', 'arg.len == 0 || !__CPROVER_same_object(arg.src, g_sbx_mem)')
+        extra = ['verifier_stub', 'vstd_strlen']
+        post = STRLEN + stub
     else:
         # std::string(const char*, n) copies exactly n bytes; std::string(const char*) scans for a terminator, so its argument
         # must be terminated inside its own buffer: either the empty literal or the snapshot buffer with its last byte forced to NUL
@@ -219,7 +227,7 @@ def string_inst(kind, recv, tier):
                 root_name='copy_and_verify_string', tier=tier, pre=GH, pre_defines=OBJVIEW, post_protos=post, opts={'param_fn_stubs': {'*': 'verifier_stub'}, 'amp_star': True, 'volatile_read_check': True},
                 extra_replace=extra, object_bits=12, nondet_volatile=True, loop_contracts=lcs, timeout=600,
                 root_pick=lambda tu, fn, V=V: find_func(tu, 'copy_and_verify_string', None, lambda f, rn: V in f.get('mangledName', '') and (('16tainted_volatile' in f.get('mangledName', '').split('22copy_and_verify_string')[0]) == (recv == 'tainted_volatile'))),
-                replay={'kind': 'cav_string', 'verifier': kind, 'recv': recv, 'no_inputs': True},
+                replay=None if kind == 'view' else {'kind': 'cav_string', 'verifier': kind, 'recv': recv, 'no_inputs': True}, may_not_compile=(kind == 'view'),
                 note='strlen is an adversarial stub; %s verifier; receiver %s<char*>' % (kind, recv))
 
 
@@ -285,7 +293,7 @@ def content_insts(tier):
 
 def units(tier):
     insts = [cav_ptr_inst('int', 'int', 4, tier), cav_ptr_inst('long', 'long', 4, tier), cav_ptr_volatile_inst(tier), range_inst(tier),
-             string_inst('uptr', 'tainted', tier), string_inst('std', 'tainted', tier), string_inst('uptr', 'tainted_volatile', tier),
+             string_inst('uptr', 'tainted', tier), string_inst('std', 'tainted', tier), string_inst('uptr', 'tainted_volatile', tier), string_inst('view', 'tainted', tier),
              volatile_address_inst('buffer_address', 'long', 8, tier), volatile_address_inst('unverified_safe', 'int', 4, tier)] + content_insts(tier)
     if tier != 'quick':
         insts.append(string_inst('std', 'tainted_volatile', tier))
@@ -299,7 +307,7 @@ ASSUMPTIONS = [
     'the verifier is an arbitrary function that returns; its precondition is what RLBox must guarantee about the object it is handed',
     'volatile-receiver pointer form: 8 readable guard bytes follow the region (guard page), so that reading a pointee that starts on the last bytes of the region does not fault; the pointer itself is arbitrary at every read',
     'std::memcpy in these units is cbmc\'s own byte copy (with its pointer checks on source and destination ranges)',
-    'the verifier-parameter kinds are those the pinned tree accepts (pointer to fresh copy, unique_ptr<char[]>, std::string, address): a NEW arm added to copy_and_verify / copy_and_verify_string for another parameter kind is a discarded if-constexpr branch in every instance and is not seen (seeded/W63)',
+    'the verifier-parameter kinds are those the pinned tree accepts (pointer to fresh copy, unique_ptr<char[]>, std::string, address); of the kinds it rejects one is watched: a std::string_view verifier of copy_and_verify_string is a snippet that must not compile (may_not_compile) and, on a tree where it does, must still be handed an application-memory object (seeded/W63); other new parameter kinds are not seen',
 ]
 TRUSTED = ['goto-instrument --nondet-volatile as the model of concurrent modification', 'libstdc++ unique_ptr/string semantics (M-mem)']
 MANIFEST = {
